@@ -1,10 +1,34 @@
-(* C02 — written files are valid Parquet that an independent reader decodes identically.
-   Statements only.  This file holds the structural half: the bookkeeping fields describe exactly
-   the bytes present.  (Wire-type/IDL conformance of the metadata is C10's theorem set; the decode
-   half uses the spec decoders of Codec/ - see harness/props/C02.py for which are wired in.)       *)
-From Coq Require Import ZArith List Bool Arith.
-From Pq Require Import Format.ChunkLayout Proofs.ChunkLayoutProofs.
+(* C02 - written files are valid Parquet that an independent reader decodes identically.
+   Statements only (proofs in theories/Proofs/).
+
+   Two groups.  (A) The bookkeeping rules of parquet.thrift as a decidable checker (Format/ChunkLayout.v,
+   used by the validator Format/File.v valid_file) and the writer's running-position/diff bookkeeping
+   satisfying it for every page list.  (B) The layers of spec_roundtrip: the specification-level
+   decoder/validator (Format/Phys, Page, File) reads back what the specification-level encoder
+   (Format/Enc) writes - this is what makes `pqref fmt_validate / fmt_decode` a VERIFIED independent
+   reader rather than another implementation.
+
+   spec_roundtrip (DESIGN section 6) is proved at FILE level (C02_spec_roundtrip): for every well-formed
+   laid-out file f (any number of row groups, columns, pages; v1/v2; optional/required; PLAIN, dictionary
+   indices of width <= 32 in any run mixture, RLE booleans, DELTA_BINARY_PACKED with any block shape whose
+   miniblocks hold a multiple of 8 values; any compressor satisfying the Section hypothesis)
+   dec_file (enc_file f) = table_of f and valid_file (enc_file f) = Valid.  The hypotheses besides the
+   layout's own consistency are representability conditions of the format itself: every integer the
+   encoder must write fits its declared width (page sizes in i32: phdr_wf; footer: wfb), nesting <= 64,
+   footer shorter than 4 GiB, and the logical types attached to the leaves conform to the IDL; that the
+   whole footer then conforms to the IDL is a theorem (conf_fmd).  C02_roundtrip_hypotheses_nonvacuous
+   shows a file satisfying all of them.  Not proved: that EVERY table has a layout (a one-page PLAIN
+   layout exists for every table; only instances are shown).                                          *)
+From Coq Require Import String.
+From Coq Require Import NArith ZArith List Bool Arith Lia.
+From Pq Require Import Base.Bytes Base.ListX Codec.Hybrid Thrift.Compact Thrift.Idl Thrift.IdlPinned Format.Phys Format.Meta Format.Page
+  Format.ChunkLayout Format.File Format.Enc
+  Proofs.ChunkLayoutProofs Proofs.HybridProofs Proofs.FormatCodecProofs Proofs.FormatPageProofs Proofs.FormatChunkProofs
+  Proofs.FormatMetaProofs Proofs.FormatIdlProofs Proofs.FormatFileProofs.
 Import ListNotations.
+Open Scope list_scope.
+
+(* ---------------- (A) bookkeeping ---------------------------------------------------------------- *)
 Open Scope Z_scope.
 
 (* the writer's running-position/diff bookkeeping yields ColumnMetaData that passes the checker, for
@@ -31,7 +55,6 @@ Theorem C02_check_chunk_sound : forall c ps, check_chunk c ps = true ->
 Proof. exact check_chunk_sound. Qed.
 Print Assumptions C02_check_chunk_sound.
 
-(* file level: footer framing, row counts, every chunk exact, chunks inside the data region *)
 Theorem C02_check_file_sound : forall f, check_file f = true ->
   f_footer_start f + f_footer_len f + 8 = f_len f /\
   f_num_rows f = sumZ (map r_num_rows (f_rgs f)) /\
@@ -42,17 +65,182 @@ Theorem C02_check_file_sound : forall f, check_file f = true ->
 Proof. exact check_file_sound. Qed.
 Print Assumptions C02_check_file_sound.
 
-(* chunks listed in file order never overlap *)
 Theorem C02_chunks_disjoint : forall iv lo hi, intervals_ok lo hi iv = true ->
   lo <= hi /\ Forall (fun ab => lo <= fst ab /\ fst ab <= snd ab /\ snd ab <= hi) iv /\
   (forall i j a b, (i < j)%nat -> nth_error iv i = Some a -> nth_error iv j = Some b -> snd a <= fst b).
 Proof. exact intervals_ok_sound. Qed.
 Print Assumptions C02_chunks_disjoint.
 
+(* ---------------- (B) layers of spec_roundtrip ---------------------------------------------------- *)
+Open Scope N_scope.
+
+(* PLAIN, every physical type, every value list, any trailing bytes *)
+Theorem C02_spec_plain_roundtrip : forall t tlen vs rest,
+  Forall (fun v => value_ok t tlen v = true) vs ->
+  plain_dec t tlen (N.of_nat (length vs)) (plain_enc t vs ++ rest) = Some (vs, rest).
+Proof. exact plain_roundtrip. Qed.
+Print Assumptions C02_spec_plain_roundtrip.
+
+(* the tail-recursive encoders that are extracted are the specification encoders *)
+Theorem C02_spec_extracted_encoders : forall w rs, hyb_enc_x w rs = hyb_enc w rs /\ hyb_enc_len_x w rs = hyb_enc_len w rs.
+Proof. intros; split; [apply FormatCodecProofs.hyb_enc_x_ok|apply FormatCodecProofs.hyb_enc_len_x_ok]. Qed.
+Print Assumptions C02_spec_extracted_encoders.
+
+(* page header: strict compact-protocol parse + IDL conformance + typed view give the header back *)
+Theorem C02_spec_page_header_roundtrip : forall h rest, phdr_wf h = true ->
+  dec_phdr (enc_phdr h ++ rest) = ROk (h, lenN (enc_phdr h), rest).
+Proof. exact phdr_roundtrip. Qed.
+Print Assumptions C02_spec_page_header_roundtrip.
+
+(* any page (dictionary, data v1, data v2; optional/required; PLAIN, dictionary indices of any width <= 32
+   in any mixture of RLE and bit-packed runs, RLE booleans; compressed or not; v2 is_compressed
+   absent/true/false; DELTA_BINARY_PACKED): decoding the encoder's header and payload gives the page's
+   denotation. *)
+Theorem C02_spec_page_roundtrip :
+  forall (compress : Z -> bytes -> bytes) (decompress : Z -> N -> bytes -> option bytes),
+  (forall codec b, decompress codec (lenN b) (compress codec b) = Some b) ->
+  forall strict cd codec dict it c,
+  item_wf cd it -> item_content cd dict it = Some c ->
+  let hp := enc_item compress cd codec it in
+  dec_page decompress strict cd codec dict (fst hp) (snd hp) = ROk c.
+Proof. exact item_roundtrip. Qed.
+Print Assumptions C02_spec_page_roundtrip.
+
+(* column chunk: the page loop over the concatenated pages (headers parsed back to back until the
+   bytes are used up, dictionary pages replacing the dictionary in force) returns the page summaries
+   the bookkeeping checker looks at, the cells in order and the number of NULLs *)
+Theorem C02_spec_chunk_roundtrip :
+  forall (compress : Z -> bytes -> bytes) (decompress : Z -> N -> bytes -> option bytes),
+  (forall codec b, decompress codec (lenN b) (compress codec b) = Some b) ->
+  forall strict cd codec its clock dict pages cells nulls contents,
+  Forall (item_wf cd) its ->
+  Forall (fun it => phdr_wf (fst (enc_item compress cd codec it)) = true) its ->
+  items_contents cd dict its = Some contents ->
+  (length (concat (map (item_bytes compress cd codec) its)) <= length clock)%nat ->
+  scan_pages decompress clock strict cd codec dict (concat (map (item_bytes compress cd codec) its)) pages cells nulls
+  = ROk (rev pages ++ map (fun it => summary_of (enc_item compress cd codec it)) its,
+         rev cells ++ concat (map content_cells contents),
+         nulls + fold_right N.add 0 (map content_nulls contents)).
+Proof. exact scan_pages_roundtrip. Qed.
+Print Assumptions C02_spec_chunk_roundtrip.
+
+(* the footer: typed view of the generic value the encoder writes gives the records back *)
+Theorem C02_spec_footer_view_roundtrip : forall m, fmd_of_tv (fmd_to_tv m) = Some m.
+Proof. exact fmd_of_to. Qed.
+Print Assumptions C02_spec_footer_view_roundtrip.
+
+(* the encoder's ColumnMetaData passes the bookkeeping checker on the page summaries the scan produces
+   (sizes, counts, dictionary/data page offsets, encodings) for every chunk with the dictionary page first *)
+Theorem C02_spec_chunk_metadata_valid :
+  forall (compress : Z -> bytes -> bytes) l start c,
+  its_shape (lc_items c) ->
+  check_chunk (cmeta_of (chunk_meta compress l start c)) (summaries compress (desc_of l) (lc_codec c) (lc_items c)) = true.
+Proof. exact enc_chunk_check. Qed.
+Print Assumptions C02_spec_chunk_metadata_valid.
+
+(* the footer the encoder writes conforms to the IDL whenever the leaves' logical types do *)
+Theorem C02_spec_footer_conforms : forall m, Forall logical_ok (fm_schema m) ->
+  conforms pinned idl_opts (FStruct "FileMetaData") (fmd_to_tv m) = true.
+Proof. exact conf_fmd. Qed.
+Print Assumptions C02_spec_footer_conforms.
+
+(* FILE level.  lfile_wf = leaves well-typed, every row group has one well-formed chunk per leaf (pages
+   well-formed, page headers within i32), footer_ok (representable, < 4 GiB, leaf logical types conformant);
+   rg_strict = dictionary page first and alone, all chunks of a row group have the same number of rows. *)
+Theorem C02_spec_roundtrip :
+  forall (compress : Z -> bytes -> bytes) (decompress : Z -> N -> bytes -> option bytes),
+  (forall codec b, decompress codec (lenN b) (compress codec b) = Some b) ->
+  forall strict f t,
+  lfile_wf compress f -> Forall rg_strict (l_rgs f) -> table_of f = Some t ->
+  dec_file decompress strict (enc_file compress f) = ROk t /\
+  valid_file decompress strict (enc_file compress f) = ROk tt.
+Proof. exact spec_roundtrip. Qed.
+Print Assumptions C02_spec_roundtrip.
+
+(* decoding alone needs no strictness: a second dictionary page in a chunk, unequal row counts ... *)
+Theorem C02_spec_roundtrip_dec :
+  forall (compress : Z -> bytes -> bytes) (decompress : Z -> N -> bytes -> option bytes),
+  (forall codec b, decompress codec (lenN b) (compress codec b) = Some b) ->
+  forall strict f t, lfile_wf compress f -> table_of f = Some t ->
+  dec_file decompress strict (enc_file compress f) = ROk t.
+Proof. exact spec_roundtrip_dec. Qed.
+Print Assumptions C02_spec_roundtrip_dec.
+
+(* C02_fp_write_valid at the level of the writer's bookkeeping model: whatever payloads write_column emits,
+   if the recorded ColumnMetaData are those of its pos/diff bookkeeping, num_values the row count and
+   null_count the number of NULL levels, the validator's chunk check accepts the scanned chunk.
+   (DESIGN's C02_fp_write_valid/_dec over a byte-producing writer model: the page payload blocks are modelled
+   and proved decodable in the coordinator's Impl/WLevels.v (C01); the remaining glue - the real page bytes are
+   the model's - is checked by running valid_file/dec_file on every written file, harness/props/C02.py.) *)
+Theorem C02_fp_write_chunk_valid : forall start encs (ps : list page) (m : cmd) cells nulls rg,
+  ps <> [] ->
+  forallb is_data (tl ps) = true ->
+  (is_data (hd {| p_kind := PData1; p_hdr := 1; p_comp := 0; p_uncomp := 0; p_nvals := 0; p_enc := 0 |}%Z ps) = false -> tl ps <> []) ->
+  forallb sane ps = true ->
+  forallb (fun p => existsb (Z.eqb (p_enc p)) encs) ps = true ->
+  cmeta_of m = wr_bookkeeping start (sumZ (map p_nvals (filter is_data ps))) encs ps ->
+  cm_nvals m = rg_nrows rg ->
+  (cm_null_count m = None \/ cm_null_count m = Some (Z.of_N nulls)) ->
+  valid_chunk rg (CHere {| co_meta := m; co_pages := ps; co_cells := cells; co_nulls := nulls |}) = ROk tt.
+Proof. exact fp_write_chunk_valid. Qed.
+Print Assumptions C02_fp_write_chunk_valid.
+
+(* ---------------- non-vacuity -------------------------------------------------------------------- *)
 Example C02_nonvacuous :
-  let d := {| p_kind := PDict; p_hdr := 14; p_comp := 30; p_uncomp := 50; p_nvals := 5; p_enc := 0 |} in
-  let p := {| p_kind := PData2; p_hdr := 20; p_comp := 70; p_uncomp := 60; p_nvals := 100; p_enc := 8 |} in
-  check_chunk (wr_bookkeeping 4 200 [0; 8] [d; p; p]) [d; p; p] = true
-  /\ c_total_uncomp (wr_bookkeeping 4 200 [0; 8] [d; p; p]) = 224
-  /\ check_chunk (wr_bookkeeping 4 200 [0; 8] [d; p; p]) [d; p] = false.
+  let d := {| p_kind := PDict; p_hdr := 14; p_comp := 30; p_uncomp := 50; p_nvals := 5; p_enc := 0 |}%Z in
+  let p := {| p_kind := PData2; p_hdr := 20; p_comp := 70; p_uncomp := 60; p_nvals := 100; p_enc := 8 |}%Z in
+  check_chunk (wr_bookkeeping 4 200 [0; 8] [d; p; p])%Z [d; p; p] = true
+  /\ c_total_uncomp (wr_bookkeeping 4 200 [0; 8] [d; p; p])%Z = 224%Z
+  /\ check_chunk (wr_bookkeeping 4 200 [0; 8] [d; p; p])%Z [d; p] = false.
 Proof. repeat split; vm_compute; reflexivity. Qed.
+
+(* a whole file through the executable specification: two columns (optional INT32 with a NULL, PLAIN,
+   v1; required BYTE_ARRAY with a dictionary page, RLE + bit-packed indices, v2), identity "compression":
+   the decoder returns the denoted table and the validator accepts *)
+Definition ex_file : lfile :=
+  {| l_leaves := [ {| ll_name := [97]; ll_type := INT32; ll_tlen := 0; ll_optional := true; ll_conv := None; ll_logical := None |};
+                   {| ll_name := [115]; ll_type := BYTE_ARRAY; ll_tlen := 0; ll_optional := false; ll_conv := Some 0%Z; ll_logical := None |} ];
+     l_rgs := [ [ {| lc_codec := 0%Z; lc_stats := true;
+                     lc_items := [ LData {| lp_v2 := false; lp_nvals := 3; lp_def := [RLE 1 1; BP [0; 1]];
+                                            lp_store := SPlain [VNum 7; VNum 4294967295]; lp_iscomp := None; lp_trail := [] |} ] |};
+                  {| lc_codec := 0%Z; lc_stats := false;
+                     lc_items := [ LDict 0%Z [VBin [120]; VBin []; VBin [121; 122]];
+                                   LData {| lp_v2 := true; lp_nvals := 3; lp_def := [];
+                                            lp_store := SDict 8%Z 2 [RLE 2 2; BP [0]]; lp_iscomp := Some false; lp_trail := [] |} ] |} ] ];
+     l_created_by := None |}.
+Definition id_c (_ : Z) (b : bytes) : bytes := b.
+Definition id_d (_ : Z) (_ : N) (b : bytes) : option bytes := Some b.
+
+Example C02_file_nonvacuous :
+  table_of ex_file = Some (map leaf_of_l (l_leaves ex_file),
+                           [[[Some (VNum 7); None; Some (VNum 4294967295)];
+                             [Some (VBin [121; 122]); Some (VBin [121; 122]); Some (VBin [120])]]])
+  /\ option_map snd (match dec_file id_d true (enc_file id_c ex_file) with ROk r => Some r | _ => None end)
+     = option_map snd (table_of ex_file)
+  /\ valid_file id_d true (enc_file id_c ex_file) = ROk tt.
+Proof. repeat split; vm_compute; reflexivity. Qed.
+
+(* the hypotheses of C02_spec_roundtrip are satisfiable: ex_file meets every one of them *)
+Ltac dec := first [exact I | reflexivity | vm_compute; first [reflexivity | discriminate | (intro; discriminate) | lia]].
+Ltac fa := repeat (first [apply Forall_cons | apply Forall_nil | apply Forall2_cons | apply Forall2_nil]).
+
+Example C02_roundtrip_hypotheses_nonvacuous : lfile_wf id_c ex_file /\ Forall rg_strict (l_rgs ex_file).
+Proof.
+  split; [split; [|split]|].
+  - (* leaves *) cbn [l_leaves ex_file]. fa; dec.
+  - (* row groups: one well-formed chunk per leaf *)
+    cbn [l_leaves l_rgs ex_file]. fa. split; [reflexivity|]. fa.
+    + split; [split|eexists; vm_compute; reflexivity]; cbn [lc_items]; fa.
+      * cbn [item_wf]. split.
+        -- right. cbn [desc_of cd_maxdef ll_optional lp_def lp_nvals]. repeat split; fa; try dec; split; fa; dec.
+        -- cbn [lp_store store_wf]. split; fa; dec.
+      * dec.
+    + split; [split|eexists; vm_compute; reflexivity]; cbn [lc_items]; fa.
+      * cbn [item_wf]. split; [left; reflexivity|fa; dec].
+      * cbn [item_wf]. split; [left; reflexivity|].
+        cbn [lp_store store_wf]. split; [right; reflexivity|]. repeat split; fa; try dec; split; fa; dec.
+      * dec.
+      * dec.
+  - (* footer *) repeat split; fa; dec.
+  - (* strict *) cbn [l_rgs ex_file]. fa; split; dec || (cbn [lc_items its_shape]; split; dec).
+Qed.
